@@ -7,7 +7,15 @@
 //! prints what left the gate and what the RIB answers.
 //! Same case grammar as oracle/eng_c16.ml (ops separated by ';'):
 //!
-//!   F c                 start a new file; c = p plain | g gzip | b bzip2
+//!   F c [sub base]      start a new file; c = p plain | g gzip | b bzip2. Without sub/base the file is f<k>.mrt[.gz|.bz2] (k = its
+//!                       number in the case) directly in update_path; with them it is <sub>/u<base>.mrt[.gz|.bz2], sub = - (update_path
+//!                       itself) or dotted one-letter directories (a, b, a.b = a/b): files of EQUAL NAME in different directories, and
+//!                       a path that is written again (the earlier file is replaced once it has been imported)
+//!   R k [s]             the path of file (k mod files so far) is queued once more, as it is; s = how the request spells it:
+//!                       0 plain, 1 ./<path>, 2 <dir>/../<dir>/<name> (./ if the file has no directory), 3 <dir>//<name>
+//!   C k                 a new file f<n>.. holding the same octets as file (k mod files so far): same content under another name
+//!   B                   barrier like W; if the unit has not been started yet, the files written so far are its configured
+//!                       `filename` list (queued by MrtFileIn::run at start-up) instead of requests to the HTTP endpoint
 //!   X k                 an unreadable file; k = m missing | g not gzip (.gz) | b not bzip2 (.bz2) | d a directory
 //!   I i,j,..|-          PEER_INDEX_TABLE naming the pool peers i,j,..
 //!   T fam pfx i:a,..    RIB_IPVx_UNICAST record for prefix pfx: entries (peer index i, attributes a)
@@ -265,7 +273,42 @@ pub(crate) fn bgp4mp_state(v: u32, p: usize, old: u16, new: u16) -> Vec<u8> {
 }
 
 // ---------------------------------------------------------------- files
+#[derive(Clone)]
 enum FileSpec { Good { comp: char, bytes: Vec<u8> }, Bad(char) }
+
+/// where a file of the case lives, relative to update_path: directories, then the name (without the compression's extension)
+#[derive(Clone)]
+struct Place { dirs: Vec<String>, stem: String }
+impl Place {
+    fn default_for(k: usize) -> Place { Place { dirs: vec![], stem: format!("f{k}") } }
+    fn parse(sub: &str, base: &str) -> Place {
+        let dirs = if sub == "-" { vec![] } else { sub.split('.').map(|d| d.chars().take(1).collect::<String>()).collect() };
+        Place { dirs, stem: format!("u{}", base.parse::<u32>().unwrap()) }
+    }
+}
+/// one entry of the queue: a path, with what is written there just before it is queued (if anything)
+struct Entry { rel_dirs: Vec<String>, name: String, write: Option<FileSpec>, exists: bool, spelling: u32 }
+impl Entry {
+    fn rel(&self) -> String { let mut v = self.rel_dirs.clone(); v.push(self.name.clone()); v.join("/") }
+    /// the text of the request's `file` parameter
+    fn request(&self) -> String {
+        let dir = self.rel_dirs.join("/");
+        match (self.spelling % 4, self.rel_dirs.is_empty()) {
+            (0, _) => self.rel(),
+            (1, _) | (2, true) => format!("./{}", self.rel()),
+            (2, false) => format!("{dir}/../{}/{}", self.rel_dirs.last().unwrap(), self.name),
+            (_, true) => format!(".//{}", self.name),
+            (_, false) => format!("{dir}//{}", self.name),
+        }
+    }
+}
+fn file_name(stem: &str, f: &FileSpec) -> String {
+    match f {
+        FileSpec::Good { comp: 'g', .. } | FileSpec::Bad('g') => format!("{stem}.mrt.gz"),
+        FileSpec::Good { comp: 'b', .. } | FileSpec::Bad('b') => format!("{stem}.mrt.bz2"),
+        _ => format!("{stem}.mrt"),
+    }
+}
 
 pub(crate) fn scratch_root() -> PathBuf {
     // <verif>/.cache/target/release/vh  ->  <verif>/.cache/c16/<pid>
@@ -275,31 +318,37 @@ pub(crate) fn scratch_root() -> PathBuf {
     cache.join("c16").join(format!("{}", std::process::id()))
 }
 
-fn write_file(dir: &std::path::Path, k: usize, f: &FileSpec) -> (PathBuf, bool) {
+/// writes the file at `p` (its directory is made); false if the spec is a file that does not exist
+fn write_file(p: &std::path::Path, f: &FileSpec) -> bool {
+    if let Some(d) = p.parent() { std::fs::create_dir_all(d).unwrap(); }
+    // a path that is written again: the new file takes the place of the old one, as a mirror job does (write aside, rename)
+    let put = |data: &[u8]| {
+        let tmp = p.with_extension("tmp-verif");
+        std::fs::write(&tmp, data).unwrap();
+        std::fs::rename(&tmp, p).unwrap();
+    };
     match f {
         FileSpec::Good { comp, bytes } => {
-            let (name, data) = match comp {
+            match comp {
                 'g' => {
                     let mut e = flate2::write::GzEncoder::new(vec![], flate2::Compression::fast());
                     e.write_all(bytes).unwrap();
-                    (format!("f{k}.mrt.gz"), e.finish().unwrap())
+                    put(&e.finish().unwrap())
                 }
                 'b' => {
                     let mut e = bzip2::write::BzEncoder::new(vec![], bzip2::Compression::fast());
                     e.write_all(bytes).unwrap();
-                    (format!("f{k}.mrt.bz2"), e.finish().unwrap())
+                    put(&e.finish().unwrap())
                 }
-                _ => (format!("f{k}.mrt"), bytes.clone()),
+                _ => put(bytes),
             };
-            let p = dir.join(name);
-            std::fs::write(&p, data).unwrap();
-            (p, true)
+            true
         }
         FileSpec::Bad(kind) => match kind {
-            'g' => { let p = dir.join(format!("f{k}.mrt.gz")); std::fs::write(&p, b"this is not gzip data at all").unwrap(); (p, true) }
-            'b' => { let p = dir.join(format!("f{k}.mrt.bz2")); std::fs::write(&p, b"this is not bzip2 data at all").unwrap(); (p, true) }
-            'd' => { let p = dir.join(format!("f{k}.mrt")); std::fs::create_dir_all(&p).unwrap(); (p, true) }
-            _ => (dir.join(format!("f{k}.mrt")), false),
+            'g' => { put(b"this is not gzip data at all"); true }
+            'b' => { put(b"this is not bzip2 data at all"); true }
+            'd' => { std::fs::create_dir_all(p).unwrap(); true }
+            _ => false,
         },
     }
 }
@@ -450,50 +499,105 @@ fn run_in(line: &str, root: &std::path::Path) -> String {
         async move { let _ = rib.verif_process_update(u).await; }
     });
     link.set_direct_update_target(capture.clone());
-    let cfg = MrtFileIn::verif_config(vec![], Some(root.to_path_buf()));
-    let (unit, run_fut) = rt.block_on(cfg.verif_start("mrt-in", gate, reg.clone()));
-    let runner = rt.spawn(run_fut);
-    rt.block_on(async { link.connect(false).await }).expect("link connects");
-    let nm = Namer { reg: reg.clone(), parent: unit.parent_id };
+    // The RIB is linked to the unit's gate BEFORE the unit starts (in the application every link is connected before the
+    // wait point lets the units run): the files of the configured `filename` list are on the queue from the first moment on.
+    rt.block_on(async {
+        tokio::select! {
+            r = link.connect(false) => r.expect("link connects"),
+            _ = async { loop { let _ = gate.process().await; } } => unreachable!(),
+        }
+    });
+    let gate = std::cell::RefCell::new(Some(gate));
+    let parent = std::cell::Cell::new(u32::MAX);
+    // the unit, started at the first barrier: (hook handle, the task of MrtInRunner::run)
+    let started: std::cell::RefCell<Option<(rotonda::verif::mrt_import::VerifUnit, tokio::task::JoinHandle<Result<(), rotonda::comms::Terminated>>)>> = std::cell::RefCell::new(None);
 
     let mut out: Vec<String> = vec![];
-    let mut pending: Vec<FileSpec> = vec![];
-    let mut cur: Option<(char, Vec<u8>)> = None;
-    let mut nfiles = 0usize;
+    let mut pending: Vec<Entry> = vec![];
+    let mut cur: Option<(char, Vec<u8>, Option<Place>)> = None;
+    // every file of the case as it was made: (directories, name, spec, exists)
+    let mut table: Vec<(Vec<String>, String, FileSpec, bool)> = vec![];
     let mut seq = 0u32;
 
-    fn close(cur: &mut Option<(char, Vec<u8>)>, pending: &mut Vec<FileSpec>) {
-        if let Some((comp, bytes)) = cur.take() { pending.push(FileSpec::Good { comp, bytes }); }
+    fn new_file(place: Option<Place>, spec: FileSpec, table: &mut Vec<(Vec<String>, String, FileSpec, bool)>, pending: &mut Vec<Entry>) {
+        let place = place.unwrap_or_else(|| Place::default_for(table.len()));
+        let name = file_name(&place.stem, &spec);
+        let exists = !matches!(spec, FileSpec::Bad(k) if k != 'g' && k != 'b' && k != 'd');
+        table.push((place.dirs.clone(), name.clone(), spec.clone(), exists));
+        pending.push(Entry { rel_dirs: place.dirs, name, write: Some(spec), exists, spelling: 0 });
     }
-    let mut barrier = |pending: &mut Vec<FileSpec>, out: &mut Vec<String>, nfiles: &mut usize| {
-        // write the files, enqueue all of them in order at once, wait for every answer
+    fn close(cur: &mut Option<(char, Vec<u8>, Option<Place>)>, table: &mut Vec<(Vec<String>, String, FileSpec, bool)>, pending: &mut Vec<Entry>) {
+        if let Some((comp, bytes, place)) = cur.take() { new_file(place, FileSpec::Good { comp, bytes }, table, pending); }
+    }
+
+    // one group of entries: written, then put on the queue in order at once, then every answer awaited
+    let flush = |group: Vec<Entry>, boot: bool, answers: &mut Vec<String>| {
+        let mut paths: Vec<(PathBuf, &Entry)> = vec![];
+        for e in group.iter() {
+            let path = root.join(e.rel());
+            if let Some(spec) = &e.write { write_file(&path, spec); }
+            paths.push((path, e));
+        }
+        let mut started = started.borrow_mut();
+        let as_config = boot && started.is_none();
+        if started.is_none() {
+            let files: Vec<PathBuf> = if as_config { paths.iter().map(|(p, _)| p.clone()).collect() } else { vec![] };
+            let cfg = MrtFileIn::verif_config(files, Some(root.to_path_buf()));
+            let (unit, run_fut) = rt.block_on(cfg.verif_start("mrt-in", gate.borrow_mut().take().unwrap(), reg.clone()));
+            parent.set(unit.parent_id);
+            *started = Some((unit, rt.spawn(run_fut)));
+        }
+        let unit = &started.as_ref().unwrap().0;
         let mut futs: Vec<std::pin::Pin<Box<dyn std::future::Future<Output = String> + Send>>> = vec![];
-        for f in pending.drain(..) {
-            let (path, exists) = write_file(root, *nfiles, &f);
-            *nfiles += 1;
-            if exists {
-                let name = path.file_name().unwrap().to_string_lossy().to_string();
-                let p = unit.processor.clone();
-                futs.push(Box::pin(async move {
-                    let req = Request::builder().method("GET").uri(format!("/mrt/mrt-in/queue?file={name}")).body(Body::empty()).unwrap();
-                    match p.process_request(&req).await {
-                        Some(r) => format!("{}", r.status().as_u16()),
-                        None => "none".into(),
-                    }
-                }));
-            } else {
-                // a file that vanished between the endpoint's check and the unit's open: straight onto the queue
-                let tx = unit.queue_tx.clone();
-                futs.push(Box::pin(async move {
-                    let (otx, orx) = tokio::sync::oneshot::channel();
-                    if tx.send((path, Some(otx))).await.is_err() { return "closed".into(); }
-                    match orx.await { Ok(_) => "200".into(), Err(_) => "dropped".into() }
-                }));
+        if as_config {
+            // the configured files have no enqueuer to answer to: the queue is consumed in order, so the answer for one
+            // more entry behind them (a file that does not exist, straight onto the queue) says they are all done
+            let tx = unit.queue_tx.clone();
+            let sentinel = root.join("no-such-file.sentinel");
+            futs.push(Box::pin(async move {
+                let (otx, orx) = tokio::sync::oneshot::channel();
+                if tx.send((sentinel, Some(otx))).await.is_err() { return "closed".into(); }
+                match orx.await { Ok(_) => "200".into(), Err(_) => "dropped".into() }
+            }));
+        } else {
+            for (path, e) in paths.iter() {
+                if e.exists {
+                    let name = e.request();
+                    let p = unit.processor.clone();
+                    futs.push(Box::pin(async move {
+                        let req = Request::builder().method("GET").uri(format!("/mrt/mrt-in/queue?file={name}")).body(Body::empty()).unwrap();
+                        match p.process_request(&req).await {
+                            Some(r) => format!("{}", r.status().as_u16()),
+                            None => "none".into(),
+                        }
+                    }));
+                } else {
+                    // a file that vanished between the endpoint's check and the unit's open: straight onto the queue
+                    let tx = unit.queue_tx.clone();
+                    let path = path.clone();
+                    futs.push(Box::pin(async move {
+                        let (otx, orx) = tokio::sync::oneshot::channel();
+                        if tx.send((path, Some(otx))).await.is_err() { return "closed".into(); }
+                        match orx.await { Ok(_) => "200".into(), Err(_) => "dropped".into() }
+                    }));
+                }
             }
         }
-        let answers: Vec<String> = rt.block_on(async {
-            futures_join(futs).await
-        });
+        answers.extend(rt.block_on(async { futures_join(futs).await }));
+    };
+    let barrier = |pending: &mut Vec<Entry>, out: &mut Vec<String>, boot: bool| {
+        // entries go onto the queue in order at once - except that a path which is written again waits until the
+        // entries already queued under it have been imported (the queue holds names; the unit opens a file when its turn comes)
+        let mut answers: Vec<String> = vec![];
+        let mut group: Vec<Entry> = vec![];
+        for e in pending.drain(..) {
+            if e.write.is_some() && group.iter().any(|g| g.rel() == e.rel()) {
+                flush(std::mem::take(&mut group), boot, &mut answers);
+            }
+            group.push(e);
+        }
+        if !group.is_empty() || boot { flush(group, boot, &mut answers); }
+        let nm = Namer { reg: reg.clone(), parent: parent.get() };
         out.push("[".into());
         for u in capture.take() { out.push(show_update(&nm, &u)); }
         // every file gets an answer from the unit, whatever happened to it
@@ -502,13 +606,31 @@ fn run_in(line: &str, root: &std::path::Path) -> String {
 
     for op in ops(line) {
         let n = |i: usize| op[i].parse::<u32>().unwrap();
-        let mut rec = |bytes: Vec<u8>, cur: &mut Option<(char, Vec<u8>)>| {
-            if cur.is_none() { *cur = Some(('p', vec![])); }
+        let mut rec = |bytes: Vec<u8>, cur: &mut Option<(char, Vec<u8>, Option<Place>)>| {
+            if cur.is_none() { *cur = Some(('p', vec![], None)); }
             cur.as_mut().unwrap().1.extend_from_slice(&bytes);
         };
         match op[0] {
-            "F" => { close(&mut cur, &mut pending); cur = Some((op[1].chars().next().unwrap(), vec![])); }
-            "X" => { close(&mut cur, &mut pending); pending.push(FileSpec::Bad(op[1].chars().next().unwrap())); }
+            "F" => {
+                close(&mut cur, &mut table, &mut pending);
+                let place = if op.len() >= 4 { Some(Place::parse(op[2], op[3])) } else { None };
+                cur = Some((op[1].chars().next().unwrap(), vec![], place));
+            }
+            "X" => { close(&mut cur, &mut table, &mut pending); new_file(None, FileSpec::Bad(op[1].chars().next().unwrap()), &mut table, &mut pending); }
+            "R" => {
+                close(&mut cur, &mut table, &mut pending);
+                if !table.is_empty() {
+                    let (dirs, name, _, exists) = table[n(1) as usize % table.len()].clone();
+                    pending.push(Entry { rel_dirs: dirs, name, write: None, exists, spelling: if op.len() > 2 { n(2) } else { 0 } });
+                }
+            }
+            "C" => {
+                close(&mut cur, &mut table, &mut pending);
+                if !table.is_empty() {
+                    let spec = table[n(1) as usize % table.len()].2.clone();
+                    new_file(None, spec, &mut table, &mut pending);
+                }
+            }
             "I" => rec(pit_record(&plist(op[1]).iter().map(|x| *x as usize).collect::<Vec<_>>()), &mut cur),
             "T" => {
                 let es: Vec<(u16, u32)> = if op[3] == "-" { vec![] } else {
@@ -521,15 +643,16 @@ fn run_in(line: &str, root: &std::path::Path) -> String {
             "K" => rec(bgp4mp_message(n(1), n(2) as usize, &bgp_other(op[3])), &mut cur),
             "S" => rec(bgp4mp_state(n(1), n(2) as usize, n(3) as u16, n(4) as u16), &mut cur),
             "N" => rec(mrt_record(13, n(1) as u16, false, &[]), &mut cur),
-            "W" => { close(&mut cur, &mut pending); barrier(&mut pending, &mut out, &mut nfiles); }
+            "W" | "B" => { close(&mut cur, &mut table, &mut pending); barrier(&mut pending, &mut out, op[0] == "B"); }
             "Q" | "QX" => {
-                close(&mut cur, &mut pending);
-                barrier(&mut pending, &mut out, &mut nfiles);
+                close(&mut cur, &mut table, &mut pending);
+                barrier(&mut pending, &mut out, false);
                 let af = n(1);
                 let pfx = if op[0] == "Q" { inetnum::addr::Prefix::from_str(&prefix_str(af, n(2))).unwrap() }
                           else { wire_prefix(af, op[2]).expect("QX: prefix") };
                 let mo = MatchOptions { match_type: MatchType::ExactMatch, include_withdrawn: true, include_less_specifics: false, include_more_specifics: false, mui: None };
                 let res = rib.verif_rib().match_prefix(&pfx, &mo).unwrap();
+                let nm = Namer { reg: reg.clone(), parent: parent.get() };
                 let mut es: Vec<String> = res.prefix_meta.iter().map(|r| {
                     format!("{}={}{}", nm.wire(r.multi_uniq_id), if r.status == RouteStatus::Active { "A" } else { "W" }, attr_tok(&r.meta))
                 }).collect();
@@ -539,13 +662,18 @@ fn run_in(line: &str, root: &std::path::Path) -> String {
             _ => panic!("bad op {:?}", op),
         }
     }
-    close(&mut cur, &mut pending);
-    if !pending.is_empty() { barrier(&mut pending, &mut out, &mut nfiles); }
-    rt.block_on(async { agent.terminate().await; let _ = tokio::time::timeout(std::time::Duration::from_secs(2), runner).await; });
+    close(&mut cur, &mut table, &mut pending);
+    if !pending.is_empty() { barrier(&mut pending, &mut out, false); }
+    let mut started = started.into_inner();
+    rt.block_on(async {
+        agent.terminate().await;
+        if let Some((_, runner)) = started.as_mut() { let _ = tokio::time::timeout(std::time::Duration::from_secs(2), runner).await; }
+    });
     {
         let _g = rt.enter();
         drop(link);
-        drop(unit);
+        drop(started);
+        drop(gate);
         drop(capture);
         drop(rib);
         drop(_rib_agent);
